@@ -45,7 +45,7 @@ ASSUMPTIONS = {"C08": [
 EXPECTED_PROBES = {"C08": ["probe:all_recorded_trials_failed_no_tree", "pool:out_of_order", "fault:trial_exception", "fault:trial_badtrial", "probe:cancelled_inflight",
                            "probe:second_search", "probe:postproc", "probe:reference_compared", "fault:clock_jump",
                            "probe:early_stop", "pool:mode:process", "pool:mode:thread", "fault:trial_objective",
-                           "fault:poll_lag_batched_completions", "probe:simultaneous_completions"]}
+                           "fault:poll_lag_batched_completions", "probe:simultaneous_completions", "probe:compressed_search"]}
 
 
 def violation_class(v):
@@ -57,7 +57,7 @@ def violation_class(v):
 
 _STATE = {"fault_seed": 0, "rate": 0.0, "obj_rate": 0.0, "kinds": ("exception",), "trace": [], "registered": False}
 
-_REAL = {"sim-greedy": "greedy", "sim-random-greedy": "random-greedy", "sim-labels": "labels",
+_REAL = {"sim-greedy-compressed": "greedy-compressed", "sim-greedy-span": "greedy-span", "sim-greedy": "greedy", "sim-random-greedy": "random-greedy", "sim-labels": "labels",
          "sim-kahypar": "kahypar", "sim-random": "random", "sim-labels-agglom": "labels-agglom",
          "sim-kahypar-agglom": "kahypar-agglom"}
 
@@ -101,7 +101,11 @@ _wrap_sim_random = _make_wrapper("sim-random", "random")
 _wrap_sim_labels_agglom = _make_wrapper("sim-labels-agglom", "labels-agglom")
 _wrap_sim_kahypar_agglom = _make_wrapper("sim-kahypar-agglom", "kahypar-agglom")
 
+_wrap_sim_greedy_compressed = _make_wrapper("sim-greedy-compressed", "greedy-compressed")
+_wrap_sim_greedy_span = _make_wrapper("sim-greedy-span", "greedy-span")
+
 _WRAPPERS = {
+    "sim-greedy-compressed": _wrap_sim_greedy_compressed, "sim-greedy-span": _wrap_sim_greedy_span,
     "sim-greedy": _wrap_sim_greedy, "sim-random-greedy": _wrap_sim_random_greedy, "sim-labels": _wrap_sim_labels,
     "sim-kahypar": _wrap_sim_kahypar, "sim-random": _wrap_sim_random, "sim-labels-agglom": _wrap_sim_labels_agglom,
     "sim-kahypar-agglom": _wrap_sim_kahypar_agglom,
@@ -209,6 +213,15 @@ def gen_case(prop, seed, tier):
         methods = [m for m in methods if m != "sim-random"] or ["sim-greedy"]
     max_time = sw.choice([None, None, None, 0.5, 5.0, "rate:1e3", "rate:1e6", "equil:2"])
     fault_rate = sw.choice([0.0, 0.0, 0.15, 0.3, 0.6])
+    compressed = sw.random() < 0.12
+    if compressed:
+        # compressed contraction trees: ordinary networks only, no slicing / annealing post-processing
+        inputs, output, size_dict = netgen.gen_network(net_rng, n_min=5, n_max=10, max_inds=20, dims=(2, 3, 4), max_rank=4,
+                                                       space_cap=2 ** 60, feat={"out_edge": False})
+        methods = sw.sample(["sim-greedy-compressed", "sim-greedy-span"], sw.randint(1, 2))
+        minimize = sw.choice(["peak-compressed", "size-compressed", "peak-compressed-4", "flops-compressed-8", "write-compressed-4"])
+        post = {"reconf_opts": {"window_size": 4, "max_iterations": 3, "max_window_tries": 10}} if sw.random() < 0.3 else {}
+        optlib = "random"
     case = {
         "seed": seed,
         "net": {"inputs": inputs, "output": output, "size_dict": size_dict},
@@ -227,7 +240,7 @@ def gen_case(prop, seed, tier):
         "tick": sw.choice([0.0, 0.001, 0.05]),
         "clock_jumps": [[sw.randint(1, 40), sw.choice([-30.0, -1.0, 2.0, 100.0])] for _ in range(sw.choice([0, 0, 1, 2]))],
         "searches": sw.choice([1, 1, 2]),
-        "compressed": False,
+        "compressed": compressed,
     }
     return case
 
@@ -236,7 +249,7 @@ def gen_case(prop, seed, tier):
 
 
 def _mk_opt(ctg, case, pool, faulty):
-    from cotengra.hyperoptimizers.hyper import HyperOptimizer
+    from cotengra.hyperoptimizers.hyper import HyperCompressedOptimizer, HyperOptimizer
 
     minimize = case["minimize"]
     if minimize == "custom":
@@ -249,6 +262,8 @@ def _mk_opt(ctg, case, pool, faulty):
               seed=case["opt_seed"])
     for k, v in case["post"].items():
         kw[k] = copy.deepcopy(v)
+    if case.get("compressed"):
+        return HyperCompressedOptimizer(**kw)
     return HyperOptimizer(**kw)
 
 
@@ -446,6 +461,17 @@ def run_case(prop, case):
             was_injected = any(t[0] == r["digest"] and t[1] is not None for t in res["trace"])
             if was_injected and not (r["score"] == float("inf") and r["flops"] == float("inf")):
                 V("failed-trial-not-inf", f"fault-injected trial {r['i']} recorded score {r['score']} flops {r['flops']}")
+        if case.get("compressed"):
+            counters["probe:compressed_search"] += 1
+            # compressed estimates are not the tree's exact figures: only the score of the returned tree is recomputed
+            try:
+                raw = opt.objective({"tree": copy.deepcopy(tree)})
+                want = raw ** opt.score_compression
+                if abs(want - opt.best["score"]) > 1e-4 * max(1.0, abs(want)):
+                    V("best-score-not-tree-score", f"objective(returned tree)**c = {want} but best score = {opt.best['score']}")
+            except Exception as e:
+                V("objective-raised-on-returned-tree", f"{type(e).__name__}: {e}")
+            return
         # recorded figures of the winner == the returned tree's own figures
         st = _stats_of(tree)
         for q in ("flops", "write", "size"):
